@@ -330,27 +330,27 @@ Proof.
 Qed.
 
 (* block comments: the body up to the first star-slash *)
-Definition nss (c : str) : bool := negb (contains_sub [42; 47] c).
+Definition gnss (c : str) : bool := negb (contains_sub [42; 47] c).
 
-Lemma nss_cons a r : nss (a :: r) = true -> nss r = true /\ (a = 42 -> match r with x :: _ => x <> 47 | [] => True end).
+Lemma gnss_cons a r : gnss (a :: r) = true -> gnss r = true /\ (a = 42 -> match r with x :: _ => x <> 47 | [] => True end).
 Proof.
-  unfold nss. cbn [contains_sub starts_with]. rewrite negb_true_iff, orb_false_iff. intros [H1 H2]. split.
+  unfold gnss. cbn [contains_sub starts_with]. rewrite negb_true_iff, orb_false_iff. intros [H1 H2]. split.
   - rewrite H2. reflexivity.
   - intros ->. destruct r as [|x r]; [exact I|]. cbn [starts_with] in H1. lia.
 Qed.
 
 (* a star-slash-free text is skipped as soon as what follows does not start with a slash *)
-Lemma skip_block_pass x rest : nss x = true -> match rest with c :: _ => c <> 47 | [] => True end ->
+Lemma skip_block_pass x rest : gnss x = true -> match rest with c :: _ => c <> 47 | [] => True end ->
   c10_skip_block (x ++ rest) = c10_skip_block rest.
 Proof.
-  intros Hx Hr. induction x as [|a r IH]; [reflexivity|]. apply nss_cons in Hx as [Hx Ha]. cbn [app c10_skip_block].
+  intros Hx Hr. induction x as [|a r IH]; [reflexivity|]. apply gnss_cons in Hx as [Hx Ha]. cbn [app c10_skip_block].
   rewrite (IH Hx). destruct ((a =? 42) && match r ++ rest with d :: _ => d =? 47 | [] => false end) eqn:E; [|reflexivity].
   exfalso. apply andb_true_iff in E as [E1 E2]. specialize (Ha ltac:(lia)).
   destruct r as [|d r]; cbn [app] in E2; [destruct rest as [|d rest]; [discriminate|lia]|lia].
 Qed.
 
 (* [/*] body [*/]: no token *)
-Lemma cfrag_comment body : nss body = true -> CFrag (47 :: 42 :: body ++ [42; 47]) [].
+Lemma cfrag_comment body : gnss body = true -> CFrag (47 :: 42 :: body ++ [42; 47]) [].
 Proof.
   intros H b tb Hb. change ([] ++ tb) with (otl None ++ tb). apply (tk_step _ None b); [|exact Hb].
   change ((47 :: 42 :: body ++ [42; 47]) ++ b) with (47 :: 42 :: (body ++ [42; 47]) ++ b). rewrite <- app_assoc.
@@ -358,10 +358,10 @@ Proof.
   rewrite skip_block_pass; [|exact H|cbn; lia]. reflexivity.
 Qed.
 
-Lemma nss_app x y : nss x = true -> nss y = true -> match y with c :: _ => c <> 47 | [] => True end -> nss (x ++ y) = true.
+Lemma gnss_app x y : gnss x = true -> gnss y = true -> match y with c :: _ => c <> 47 | [] => True end -> gnss (x ++ y) = true.
 Proof.
-  intros Hx Hy Hh. induction x as [|a r IH]; [exact Hy|]. apply nss_cons in Hx as [Hx Ha]. specialize (IH Hx).
-  unfold nss in *. cbn [app contains_sub]. apply negb_true_iff. apply orb_false_iff. split; [|apply negb_true_iff, IH].
+  intros Hx Hy Hh. induction x as [|a r IH]; [exact Hy|]. apply gnss_cons in Hx as [Hx Ha]. specialize (IH Hx).
+  unfold gnss in *. cbn [app contains_sub]. apply negb_true_iff. apply orb_false_iff. split; [|apply negb_true_iff, IH].
   cbn [starts_with]. destruct (42 =? a) eqn:E; [|reflexivity]. specialize (Ha ltac:(lia)). cbn [andb].
   destruct r as [|d r]; cbn [app].
   - destruct y as [|d y]; [reflexivity|]. destruct (47 =? d) eqn:E2; [lia|reflexivity].
@@ -375,3 +375,9 @@ Proof.
   intros b tb Hb. change ([] ++ tb) with (otl None ++ tb). apply (tk_step _ None (r ++ b)); [|exact (IH Hr b tb Hb)].
   cbn [app c10_next]. rewrite Hc. reflexivity.
 Qed.
+
+(* the frame lemma in terms of the function the recogniser runs *)
+Theorem tokens_frame a ta b tb :
+  c10_ts_tokens (S (List.length a)) a = Some ta -> c10_ts_tokens (S (List.length b)) b = Some tb -> glue a b = true ->
+  c10_ts_tokens (S (List.length (a ++ b))) (a ++ b) = Some (ta ++ tb).
+Proof. intros Ha Hb G. apply tk_run. apply (tk_frame _ _ _ Ha); [right; exact G|exact (tokens_tk _ _ _ Hb)]. Qed.
